@@ -200,7 +200,7 @@ func (m *Module) HandleDagazGetDebugInfo(ctx context.Context, respond hwebsocket
 
 	respond.Send(&dagazpb.DagazGetDebugInfoResponse{
 		Type:           dagazpb.MsgType_MSG_TYPE_DAGAZ_GET_DEBUG_INFO_RESPONSE,
-		Timestamp:      nil,
+		Timestamp:      timestamppb.Now(),
 		RequestId:      req.RequestId,
 		GridResolution: debugInfo.Resolution,
 		GridRowCount:   debugInfo.Row_count,
